@@ -56,8 +56,64 @@ def check(prog, run):
         c01.r6(m, c15._Map(run, {"R6": "R5"}))
     except Exception as e:
         run.bad("R5", "anchor", "cannot derive the writers' queued records (fail closed): %s" % e)
+    run.rule("R6", "ADTS header fields are read at the bit positions of ISO/IEC 13818-7 (every mask/shift on a header byte selects exactly one field's bits in that byte)")
+    adts_fields_rule(prog, run)
     run.rule("R4", "start-code scanner: step 1 from `from`; hits only under the exact 3-/4-byte patterns; None only when i + 3 > len (or trivially no room)")
     r4_scanner(prog, run)
+
+
+ADTS_FIELDS = [("syncword", 0, 12), ("ID", 12, 13), ("layer", 13, 15), ("protection_absent", 15, 16), ("profile", 16, 18), ("sampling_frequency_index", 18, 22),
+               ("private_bit", 22, 23), ("channel_configuration", 23, 26), ("original_copy", 26, 27), ("home", 27, 28), ("copyright_identification_bit", 28, 29),
+               ("copyright_identification_start", 29, 30), ("aac_frame_length", 30, 43), ("adts_buffer_fullness", 43, 54), ("number_of_raw_data_blocks_in_frame", 54, 56)]
+
+
+def adts_fields_rule(prog, run, R="R6"):
+    """ISO/IEC 13818-7 6.2 (adts_fixed_header / adts_variable_header, 56 bits): every `(frame[i] >> s) & m` (or `frame[i] & m`) the ADTS
+    validator evaluates on a constant byte index must select exactly the bits one header field has in that byte - not bits of two
+    fields, not a part of a field's bits in that byte, not nothing."""
+    u = prog.lib
+    fns = [f for f in u.bodies if mir.norm(f).split("::")[-1] == "adts_to_raw" and not u.bodies[f]["in_test_cfg"]]
+    if len(fns) != 1:
+        run.bad(R, "anchor adts_to_raw", "ADTS validator not found")
+        return
+    b = u.bodies[fns[0]]
+    seen = {}
+    for blk in b["blocks"]:
+        if blk.get("cleanup"):
+            continue
+        for st in blk["stmts"]:
+            if st["k"] != "assign":
+                continue
+            e = sym.expr_rv(b, st["rv"])
+            for t in sym.walk(e):
+                if not (isinstance(t, tuple) and t and t[0] == "bin" and t[1] == "BitAnd" and t[3][0] == "const" and isinstance(t[3][1], int)):
+                    continue
+                x, m, sh = t[2], t[3][1], 0
+                if x[0] == "bin" and x[1] == "Shr" and x[3][0] == "const" and isinstance(x[3][1], int):
+                    x, sh = x[2], x[3][1]
+                while x[0] == "cast":
+                    x = x[4]
+                if not (x[0] == "load" and len(x) > 3 and x[2] == "u8" and str(x[1]).startswith("arg1") and len(x[3]) == 1 and x[3][0][0] == "const"):
+                    continue
+                seen[(x[3][0][1], sh, m)] = mir.loc_of(st)
+    n = 0
+    for (i, sh, m), loc in sorted(seen.items()):
+        n += 1
+        sel = {8 * i + (7 - (sh + k)) for k in range(8) if (m >> k) & 1 and sh + k < 8}
+        owners = [(nm, lo, hi) for (nm, lo, hi) in ADTS_FIELDS if sel & set(range(lo, hi))]
+        key = "ADTS field frame[%d] >>%d &0x%02x" % (i, sh, m)
+        if i > 6:
+            run.ok(R, key, "beyond the 7-byte header (CRC / payload)", loc)
+            continue
+        if not sel or len(owners) != 1:
+            run.bad(R, key, "`(frame[%d] >> %d) & 0x%02x` selects %s: %s" % (i, sh, m, "no bit" if not sel else "header bits %s" % sorted(sel),
+                    "a field that is constant 0" if not sel else "bits of %d different ADTS fields (%s) as one value" % (len(owners), ", ".join(o[0] for o in owners))), loc)
+            continue
+        nm, lo, hi = owners[0]
+        piece = set(range(lo, hi)) & set(range(8 * i, 8 * i + 8))
+        run.check(sel == piece, R, key, "%s bits %s" % (nm, sorted(sel)),
+                  "`(frame[%d] >> %d) & 0x%02x` selects header bits %s, but %s occupies bits %s of that byte: the value is not the field" % (i, sh, m, sorted(sel), nm, sorted(piece)), loc)
+    run.floor(R, n, 8, "ADTS header field extractions")
 
 
 def r4_scanner(prog, run):
